@@ -1,5 +1,6 @@
 //! One call of the advance/reverse API on real bytes, with a scripted validator that records what
 //! it is shown, and the per-call P-monitors of C11 (evaluated on the real bytes before/after).
+#![allow(dead_code)]
 use std::cell::RefCell;
 
 use sciparse::{
